@@ -287,7 +287,7 @@ func main() {
 	run = vlib.Start("C01")
 	rogger.SetLevel(rogger.OFF)
 	run.SetRule("filter configurations {none, legacy single client+server, pre/post x1 and x3, middleware x1 and x3, server pre/post only, mixed registrations with shadowed kinds, servant registered through the context-less interface, filters registered after the application's first calls, client idle timeout shorter than the implementation's run time, implementation calling on to a second servant with its own context} x callers sharing one generated proxy {1,4,32} x calls drawing: function (12 functions covering scalars signed/unsigned, strings, vector<byte>, nested vectors, maps incl. map of vector of struct, structs with optional/default members, enums, many out parameters, none, void, out before in), argument values from 5 generation modes, request context/status maps (absent, empty, unicode, 1000 entries, random), directive (values + response context/status, tars.Error with code, plain error) and proxy form (plain, WithContext, OneWayWithContext). A case is one call; distinct = distinct (configuration, function, form, outcome kind, argument encoding hash).")
-	run.Assume("error code 0 and empty error messages are outside the domain (code 0 is success on the wire, an empty message is replaced by a synthetic text by design)")
+	run.Assume("error code 0 is outside the domain (it is success on the wire); for an error whose message is empty only the code is compared (the empty description is replaced by a synthetic text on the client by design)")
 	run.Assume("pass-through: single/middleware filters call next once and return its result, pre/post filters observe and return nil; with several kinds registered only the selected kind (single > middleware > pre/post) must see the call")
 	u, err := sch.LoadUniverse(resreg.TarsFiles)
 	if err != nil {
@@ -483,6 +483,9 @@ func oneCall(w *vworld.World, tap *netlab.Tap, cfg filterCfg, expectEnter []stri
 	case outcome == 0:
 		code := []int32{2, -1, -6, 100, 1, 2147483647, -2147483648}[r.Intn(7)]
 		d.Err = tars.Errorf(code, "servant error %d for %s", code, token)
+		if r.Intn(6) == 0 {
+			d.Err = &tars.Error{Code: code, Message: ""} // a code with nothing to say
+		}
 	case outcome == 1:
 		d.Err = errors.New("plain failure of " + token)
 	default:
@@ -632,7 +635,9 @@ func oneCall(w *vworld.World, tap *netlab.Tap, cfg filterCfg, expectEnter []stri
 			run.Violation("error-code-changed", errKind(d.Err)+":"+cfg.ServerKind, fmt.Sprintf("%s: implementation error code %d, caller sees %d (%v)", fn.Name, wantCode, gc, res.Err), wit(nil))
 			return false
 		}
-		if res.Err.Error() != d.Err.Error() {
+		// (an empty message travels as an empty description; what text the caller's error shows for
+		// it is the framework's choice: only the code is compared then)
+		if d.Err.Error() != "" && res.Err.Error() != d.Err.Error() {
 			run.Violation("error-message-changed", errKind(d.Err)+":"+cfg.ServerKind, fmt.Sprintf("%s: implementation error %q, caller sees %q", fn.Name, d.Err, res.Err), wit(nil))
 			return false
 		}
